@@ -523,6 +523,18 @@ func genExh(tier string) []*tcase {
 			}
 		}
 	}
+	// the rebuild that omits column b, then the column is added back ("change the type by hand")
+	for _, tail := range [][]stmt{
+		{{k: "ac", t: "t", col: b}},
+		{{k: "ac", t: "t", col: scol{"b", false, 2}}, {k: "ok"}},
+		{{k: "ok"}, {k: "ac", t: "t", col: b}, {k: "dc", t: "t", c: "b"}},
+	} {
+		ss := []stmt{alphaB[0], alphaB[1], alphaB[2], alphaB[3]}
+		ss = append(ss, tail...)
+		n++
+		d := &mdir{files: []mfile{f1, buildFile(2, false, ss, n%16)}, label: "exhW"}
+		cases = append(cases, &tcase{id: fmt.Sprintf("exhW%d", n), label: "exhW", dir: d, latest: 1})
+	}
 	// first-file paths: one file only, 10 and 11 statements, with a drop of an in-file table.
 	for _, fill := range []int{0, 6, 7, 8} {
 		ss := append([]stmt(nil), init...)
